@@ -20,6 +20,30 @@ class ResultsStub(Abstract):
     def a_total(self, I):
         return self.total
 
+    # the hit / score / document number at a position of the full result list (uninterpreted: any results object)
+    HIT = z3.Function("rs_hit", z3.IntSort(), z3.IntSort())
+    SCORE = z3.Function("rs_score", z3.IntSort(), z3.RealSort())
+    DOCNUM = z3.Function("rs_docnum", z3.IntSort(), z3.IntSort())
+
+    def _at(self, I, fn, idx, what):
+        from pyvc.ops import to_z3
+        idx = to_z3(idx)
+        # the page must only ever ask the full list for positions it has
+        I.oblige("call-pre", "position-inside-results[%s]" % what, z3.And(idx >= 0, idx < self.total))
+        return fn(idx)
+
+    def m___getitem__(self, I, idx):
+        return self._at(I, ResultsStub.HIT, idx, "getitem")
+
+    def getitem(self, I, idx, node=None):
+        return self._at(I, ResultsStub.HIT, idx, "getitem")
+
+    def m_score(self, I, idx):
+        return self._at(I, ResultsStub.SCORE, idx, "score")
+
+    def m_docnum(self, I, idx):
+        return self._at(I, ResultsStub.DOCNUM, idx, "docnum")
+
 
 def register(R, tier="quick"):
     def setup(I):
@@ -47,3 +71,25 @@ def register(R, tier="quick"):
                setup=lambda I: {"self": Obj(I.repo.klass(S, "ResultsPage"), {"pagecount": z3.Int("pc"), "pagenum": z3.Int("pn")})},
                requires=["self.pagecount >= 0", "1 <= self.pagenum <= max(1, self.pagecount)"],
                ensures=["result == (self.pagenum >= self.pagecount)"], returns="bool")
+
+    def page(I):
+        """a page as __init__ leaves it (its postcondition): 0 <= offset, 0 <= pagelen, offset + pagelen <= total"""
+        rs = ResultsStub(I)
+        o = Obj(I.repo.klass(S, "ResultsPage"), {"results": rs, "offset": z3.Int("offset"), "pagelen": z3.Int("plen"), "total": rs.total})
+        return {"self": o, "n": z3.Int("n")}
+
+    PAGE = ["0 <= self.offset", "0 <= self.pagelen", "self.offset + self.pagelen <= self.total"]
+    R.contract(S + ":ResultsPage.__getitem__", props=["C14"], setup=page, requires=PAGE,
+               raises={"IndexError": "n >= self.pagelen or n < -self.pagelen"},
+               ensures=[lambda I, env: env["result"] == ResultsStub.HIT(env["self"].fields["offset"] + z3.If(env["n"] < 0, env["n"] + env["self"].fields["pagelen"], env["n"]))],
+               returns="int",
+               canaries=[Canary("offset-dropped", "return self.results.__getitem__(n + offset)", "return self.results.__getitem__(n)"),
+                         Canary("one-past-the-page", "if n < 0 or n >= self.pagelen:", "if n < 0 or n > self.pagelen:")],
+               note="page[n] is hit offset + n of the full list for 0 <= n < pagelen (negative n counts from the page's end); "
+                    "any other index raises IndexError - it never reaches a hit of another page")
+    for meth, fn in (("score", ResultsStub.SCORE), ("docnum", ResultsStub.DOCNUM)):
+        R.contract(S + ":ResultsPage." + meth, props=["C14"], setup=page, requires=PAGE + ["0 <= n", "n < self.pagelen"],
+                   ensures=[lambda I, env, fn=fn: env["result"] == fn(env["self"].fields["offset"] + env["n"])],
+                   returns="real" if meth == "score" else "int",
+                   canaries=[Canary("offset-dropped", "n + self.offset", "n")],
+                   note="page.%s(n) is %s(offset + n) of the full list" % (meth, meth))
